@@ -487,6 +487,51 @@ def notIn (marked : List Nat) (x : Nat) : Bool := !decide (x ∈ marked)
 
 def unmarked (u marked : List Nat) : Nat := (u.filter (notIn marked)).length
 
+/-! ## exppp print-to-string mode (`exp_output` into the `prep_string` buffer) -/
+
+inductive FullPolicy where
+  | drop        -- a chunk that does not fit is ignored
+  | truncate    -- `len = exppp_buflen`: the part that fits is kept
+  deriving Repr, DecidableEq
+
+structure StrBufCfg where
+  allocated : Nat     -- malloc'ed bytes
+  room : Nat          -- initial `exppp_buflen`
+  policy : FullPolicy
+  copyExtra : Nat     -- `memcpy( exppp_bufp, buf, len + copyExtra )`
+  deriving Repr
+
+structure StrBufState where
+  used : Nat          -- `exppp_bufp - exppp_buf`
+  remaining : Nat     -- `exppp_buflen`
+  terminated : Bool   -- the bytes stored so far end in a NUL inside the block
+  deriving Repr, DecidableEq
+
+/-- one `exp_output( buf, strlen( buf ) )` with a chunk of `l` characters (so `buf[l]` is the terminator and every byte
+before it is not) -/
+def strBufStep (c : StrBufCfg) (s : StrBufState) (l : Nat) : Outcome StrBufState :=
+  if s.remaining < l then
+    match c.policy with
+    | .drop => .ok s
+    | .truncate =>
+      -- copies `remaining + copyExtra` bytes of the chunk, all of them before its terminator when copyExtra ≤ l - remaining
+      if c.allocated < s.used + s.remaining + c.copyExtra then .overflow c.allocated
+      else .ok ⟨s.used + s.remaining, 0, decide (l < s.remaining + c.copyExtra)⟩
+  else
+    if c.allocated < s.used + l + c.copyExtra then .overflow c.allocated
+    else .ok ⟨s.used + l, s.remaining - l, decide (1 ≤ c.copyExtra)⟩
+
+def strBufRun (c : StrBufCfg) (s : StrBufState) : List Nat → Outcome StrBufState
+  | [] => .ok s
+  | l :: rest =>
+    match strBufStep c s l with
+    | .ok s' => strBufRun c s' rest
+    | .overflow i => .overflow i
+    | .underflow => .underflow
+    | .reject => .reject
+
+def strBufInit (c : StrBufCfg) : StrBufState := ⟨0, c.room, true⟩
+
 /-! ## exit status -/
 
 inductive Tool where
